@@ -364,7 +364,7 @@ PROPERTIES.update({
         "kani": ["u06_codec_reads_agree", "u06_signed_bytes_is_consumed", "u06_leb_unsigned_roundtrip", "u06_leb_signed_roundtrip", "u06_int_unpack_total", "u06_narrow_unpack_total", "u06_string_unpack_q", "u06_string_unpack_t",
                  "u06_string_unpack_huge_len", "u06_rle_segment_total_u64", "u06_rle_segment_total_i64", "u06_rle_segment_utf8"],
         "not_under_contract": ["Column::load / load_with / save / save_to (the generic ColumnLoadIter::finalize_with, Column::fill)", "slabs, B-tree index, splice, encoder.rs",
-                               "RLE loader apart from its per-segment bookkeeping (Slab::copy_from, validate_after, rle_validate_encoding)", "bool encoding apart from BoolDecoder, BoolLoadIter::{new, cut_slab, try_next_run} and BoolEncoding::fill (finalize, merge, splice)",
+                               "RLE loader apart from its per-segment bookkeeping (Slab::copy_from, validate_after, rle_validate_encoding)", "bool encoding apart from BoolDecoder, BoolLoadIter::{new, cut_slab, try_next_run, finalize} and BoolEncoding::fill (merge, splice)",
                                "delta encoding apart from the loader's slab aggregate and DeltaDecoder::nth (domain check in DeltaColumn::load_with, save_to_unless)", "value pack() into Vec"],
         "explanation": "Kani proves on the real hexane crate: the varint codec round-trips for ALL u64 and i64 with the exact encoded length (complete); integer value decoders are total on every input up to 11 bytes "
                        "(complete for their 10-byte maximum width); string/bytes decoders and one RLE segment step are total within stated buffer bounds. "
